@@ -12,6 +12,7 @@ import (
 	"testing"
 	"time"
 
+	"github.com/tychoish/fun"
 	"github.com/tychoish/fun/pubsub"
 	"github.com/tychoish/fun/verifhook"
 	"pgregory.net/rapid"
@@ -31,6 +32,7 @@ type box struct {
 	waitPush func(ctx context.Context, end int, v int) error
 	length   func() int
 	close    func()
+	iter     func(i int) *fun.Iterator[int] // a non-destructive blocking iterator (bystander sharing the condition variables)
 }
 
 var kinds = []string{"queue", "queue-distributor", "deque", "deque-distributor", "deque-distributor-nonblocking"}
@@ -57,6 +59,7 @@ func mkBox(kind string, capacity int) *box {
 		b.close = func() { _ = q.Close() }
 		b.waitPush = func(ctx context.Context, _ int, v int) error { return q.BlockingAdd(ctx, v) }
 		b.waitPop = func(ctx context.Context, _ int) (int, error) { return q.Wait(ctx) }
+		b.iter = func(int) *fun.Iterator[int] { return q.Iterator() }
 		if kind == "queue-distributor" {
 			b.waitPop = func(ctx context.Context, _ int) (int, error) { return d.Receive(ctx) }
 			b.add = func(_ int, v int) error { return d.Send(context.Background(), v) }
@@ -86,6 +89,12 @@ func mkBox(kind string, capacity int) *box {
 		}
 		b.length = dq.Len
 		b.close = func() { _ = dq.Close() }
+		b.iter = func(i int) *fun.Iterator[int] {
+			if i%2 == 1 {
+				return dq.ProducerReverseBlocking().Iterator()
+			}
+			return dq.ProducerBlocking().Iterator()
+		}
 		b.waitPush = func(ctx context.Context, end int, v int) error {
 			if end == 1 {
 				return dq.WaitPushFront(ctx, v)
@@ -127,9 +136,10 @@ type Case struct {
 	Capacity int    `json:"capacity"` // 0: unlimited
 	Role     string `json:"role"`     // consumers | producers
 	Waiters  int    `json:"waiters"`
-	Ends     []int  `json:"ends"`      // per waiter: the end it waits on (deque)
-	Prefill  int    `json:"prefill"`   // consumers: items already present when the waiters start
-	WaitPark bool   `json:"wait_park"` // let every waiter park before the script starts
+	Ends     []int  `json:"ends"`                // per waiter: the end it waits on (deque)
+	Prefill  int    `json:"prefill"`             // consumers: items already present when the waiters start
+	Iters    int    `json:"iterators,omitempty"` // bystanders: non-destructive blocking iterators parked at the tail before the waiters start
+	WaitPark bool   `json:"wait_park"`           // let every waiter park before the script starts
 	Procs    int    `json:"gomaxprocs"`
 	Script   []Act  `json:"script"`
 }
@@ -183,6 +193,29 @@ func runCase(c *Case) (string, string) {
 			totalAdded++
 		}
 	}
+	// bystanders: iterators that have read everything and are parked at
+	// the tail before any waiter starts.  They wait on the same condition
+	// variables as the producers / consumers, so a wake-up meant for a
+	// waiter may be handed to one of them; they are not judged here (C20
+	// does that), they only must not absorb somebody else's wake-up.
+	var iwg sync.WaitGroup
+	ictx, icancel := context.WithCancel(context.Background())
+	if c.Iters > 0 {
+		base0 := parked()
+		for i := 0; i < c.Iters; i++ {
+			it := b.iter(i)
+			iwg.Add(1)
+			go func() {
+				defer iwg.Done()
+				for {
+					if _, err := it.ReadOne(ictx); err != nil {
+						return
+					}
+				}
+			}()
+		}
+		vkit.Eventually(limit, func() bool { return parked()-base0 >= c.Iters })
+	}
 	base := parked()
 	ws := make([]*waiter, c.Waiters)
 	var wg sync.WaitGroup
@@ -209,9 +242,10 @@ func runCase(c *Case) (string, string) {
 		for _, w := range ws {
 			w.cancel()
 		}
+		icancel()
 		b.close()
 		waitDone := make(chan struct{})
-		go func() { wg.Wait(); close(waitDone) }()
+		go func() { wg.Wait(); iwg.Wait(); close(waitDone) }()
 		select {
 		case <-waitDone:
 		case <-time.After(limit):
@@ -393,6 +427,9 @@ func genCase(t *rapid.T) *Case {
 	for i := 0; i < c.Waiters; i++ {
 		c.Ends = append(c.Ends, rapid.IntRange(0, 1).Draw(t, "end"))
 	}
+	if rapid.IntRange(0, 2).Draw(t, "bystanders") == 0 {
+		c.Iters = rapid.IntRange(1, 2).Draw(t, "iterators")
+	}
 	if c.Role == "consumers" && rapid.IntRange(0, 3).Draw(t, "prefill") == 0 {
 		c.Prefill = rapid.IntRange(1, 2*c.Waiters).Draw(t, "prefillN")
 	}
@@ -445,7 +482,10 @@ func classes(c *Case) (cls []string, nontrivial bool) {
 	if maxBurst >= 2 {
 		cls = append(cls, "burst>=2")
 	}
-	return cls, (c.Waiters >= 2 && maxBurst >= 2) || (racing && !c.WaitPark) || racing
+	if c.Iters > 0 {
+		cls = append(cls, "bystander-iterators")
+	}
+	return cls, (c.Waiters >= 2 && maxBurst >= 2) || (racing && !c.WaitPark) || racing || (c.Iters > 0 && maxBurst >= 1)
 }
 
 func TestWakeups(t *testing.T) {
